@@ -9,6 +9,7 @@ package main
 //        cancel S                   cancel ctx_S
 //        unlock S                   Unlock(key_S, id_S) — only by a caller whose Lock returned an id (may be stale)
 //        unlockraw K X              Unlock(K, "bogus-X")
+//        unlockx S K                Unlock(K, id_S) with S a caller of another key (foreign but genuine id)
 //        expire S                   let S's TTL watchdog (short TTL, stopped at the hook) call remove
 //        gwttl T | gwcancel         gateway Lock/Unlock handlers (TTL floor, WithoutCancel)
 // reply: <event> q=[S…] g=[S…] h=[S…]   queue, callers whose ready channel is closed, callers that
@@ -36,7 +37,8 @@ import (
 
 type c14Event struct {
 	name  string
-	id    string
+	id    string // queue pointer + raw id: lock ids need not be unique across keys
+	raw   string
 	flag  bool
 	at    time.Time
 	panic string
@@ -45,7 +47,8 @@ type c14Event struct {
 type c14Sess struct {
 	n         int
 	key       string
-	id        string
+	id        string // the lock id as the lock package knows it
+	qid       string // queue pointer + id (what hook events are matched on)
 	short     bool
 	cancel    context.CancelFunc
 	held      bool // stopped at the lock.select hook
@@ -70,7 +73,8 @@ type c14World struct {
 	ttlWait  map[string]chan struct{} // id → release channel of a watchdog stopped at lock.ttl
 	ttlAt    map[string]time.Time     // id → when its watchdog's timer fired
 	sess     []*c14Sess
-	byID     map[string]*c14Sess
+	byID     map[string]*c14Sess // by qid
+	byKey    map[string]*c14Sess // by key + "|" + raw id
 	wg       sync.WaitGroup
 	timeout  time.Duration
 	broken   bool // a step timed out: the rest of the case is not executed
@@ -92,7 +96,7 @@ func (w *c14World) gate(op string) (string, bool) {
 
 func c14NewWorld(lk lock.Lock) *c14World {
 	return &c14World{lk: lk, events: make(chan c14Event, 4096), known: map[string]bool{},
-		holds: map[string]chan struct{}{}, ttlWait: map[string]chan struct{}{}, ttlAt: map[string]time.Time{}, byID: map[string]*c14Sess{},
+		holds: map[string]chan struct{}{}, ttlWait: map[string]chan struct{}{}, ttlAt: map[string]time.Time{}, byID: map[string]*c14Sess{}, byKey: map[string]*c14Sess{},
 		timeout: 3 * time.Second}
 }
 
@@ -101,8 +105,9 @@ func (w *c14World) handler(name string, args ...any) {
 	if !strings.HasPrefix(name, "lock.") || len(args) < 2 {
 		return
 	}
-	id, _ := args[1].(string)
-	ev := c14Event{name: name, id: id, at: time.Now()}
+	raw, _ := args[1].(string)
+	id := fmt.Sprintf("%p|%s", args[0], raw)
+	ev := c14Event{name: name, id: id, raw: raw, at: time.Now()}
 	if len(args) > 2 {
 		ev.flag, _ = args[2].(bool)
 	}
@@ -173,6 +178,11 @@ func (w *c14World) waitFor(name, id string) (c14Event, bool) {
 	return w.wait(func(e c14Event) bool { return e.name == name && e.id == id })
 }
 
+// waitForRaw matches on the lock id alone (gateway calls: the queue is not known beforehand).
+func (w *c14World) waitForRaw(name, raw string) (c14Event, bool) {
+	return w.wait(func(e c14Event) bool { return e.name == name && e.raw == raw })
+}
+
 // waitTTL waits until id's watchdog timer has fired (the watchdog is then stopped at the hook).
 func (w *c14World) waitTTL(id string) (time.Time, bool) {
 	deadline := time.Now().Add(w.timeout)
@@ -194,8 +204,8 @@ func (w *c14World) waitTTL(id string) (time.Time, bool) {
 	}
 }
 
-func (w *c14World) num(id string) string {
-	if s := w.byID[id]; s != nil {
+func (w *c14World) num(key, id string) string {
+	if s := w.byKey[key+"|"+id]; s != nil {
 		return strconv.Itoa(s.n)
 	}
 	return "?"
@@ -206,12 +216,12 @@ func (w *c14World) state(key string) string {
 	ids, ready, _ := lock.VerifSnapshot(w.lk, key)
 	var q, g, h []string
 	for i, id := range ids {
-		q = append(q, w.num(id))
+		q = append(q, w.num(key, id))
 		if ready[i] {
-			g = append(g, w.num(id))
+			g = append(g, w.num(key, id))
 		}
-		if s := w.byID[id]; s != nil && s.acquired {
-			h = append(h, w.num(id))
+		if s := w.byKey[key+"|"+id]; s != nil && s.acquired {
+			h = append(h, w.num(key, id))
 		}
 	}
 	return fmt.Sprintf("q=[%s] g=[%s] h=[%s]", strings.Join(q, ","), strings.Join(g, ","), strings.Join(h, ","))
@@ -221,11 +231,11 @@ func (w *c14World) state(key string) string {
 func (w *c14World) settle(key string) string {
 	ids, ready, _ := lock.VerifSnapshot(w.lk, key)
 	for i, id := range ids {
-		s := w.byID[id]
+		s := w.byKey[key+"|"+id]
 		if s == nil || !ready[i] || s.acquired || s.held || s.gone {
 			continue
 		}
-		if _, ok := w.waitFor("lock.acq", id); !ok {
+		if _, ok := w.waitFor("lock.acq", s.qid); !ok {
 			return " stuck=" + strconv.Itoa(s.n)
 		}
 		s.acquired = true
@@ -255,9 +265,10 @@ func (w *c14World) startLock(key string, ttl time.Duration, short, hold bool) (*
 	if !ok {
 		return s, "unexpected-" + ev.name
 	}
-	s.id = ev.id
-	w.byID[s.id] = s
-	if ev, ok = w.waitFor("lock.select", s.id); !ok {
+	s.id, s.qid = ev.raw, ev.id
+	w.byID[s.qid] = s
+	w.byKey[key+"|"+s.id] = s
+	if ev, ok = w.waitFor("lock.select", s.qid); !ok {
 		return s, "unexpected-" + ev.name
 	}
 	granted := false // read from the channel state, not from the hook argument
@@ -272,7 +283,7 @@ func (w *c14World) startLock(key string, ttl time.Duration, short, hold bool) (*
 		s.held = true
 		return s, "held"
 	case granted:
-		if ev, ok = w.waitFor("lock.acq", s.id); !ok {
+		if ev, ok = w.waitFor("lock.acq", s.qid); !ok {
 			return s, "unexpected-" + ev.name
 		}
 		s.acquired = true
@@ -398,11 +409,14 @@ func genC14(rng *rand.Rand, tier string, w *bufio.Writer) {
 	}
 	fmt.Fprintln(w, "case 6\nlock a long\nlock a long hold\nlock a long\ncancel 2\ngo 2\nunlock 1\nlock b long hold\ncancel 4\nlock b long\ngo 4")
 	fmt.Fprintln(w, "case 7\ngwttl -3\ngwttl 1000\ngwttl 1250\ngwcancel")
-	for c := 8; c < cases; c++ {
+	// ids issued on one key used on another: holder and waiter of b must be untouched by a's ids
+	fmt.Fprintln(w, "case 8\nlock a long\nlock b long\nlock b long\nlock a long\nunlockx 1 b\nunlockx 2 a\nunlock 1\nunlockx 4 b\nunlock 2\nunlock 3\nunlock 4")
+	for c := 9; c < cases; c++ {
 		fmt.Fprintf(w, "case %d\n", c)
 		n := 4 + rng.Intn(maxLen)
 		sessions := 0
 		var held, short, live []int // rough bookkeeping to keep most ops applicable (never exact)
+		keyOf := map[int]string{}
 		from := func(l []int) int {
 			if len(l) == 0 || rng.Intn(8) == 0 {
 				return 1 + rng.Intn(sessions)
@@ -421,10 +435,15 @@ func genC14(rng *rand.Rand, tier string, w *bufio.Writer) {
 		for i := 0; i < n; i++ {
 			r := rng.Intn(100)
 			key := "a"
-			if rng.Intn(6) == 0 {
+			if rng.Intn(3) == 0 {
 				key = "b"
 			}
+			other := map[string]string{"a": "b", "b": "a"}
 			switch {
+			case r >= 94 && r < 97 && len(live) > 0:
+				// a genuine id, on the wrong key
+				x := from(live)
+				fmt.Fprintf(w, "unlockx %d %s\n", x, other[keyOf[x]])
 			case r < 30 || sessions == 0:
 				ttl := "long"
 				sessions++
@@ -438,6 +457,7 @@ func genC14(rng *rand.Rand, tier string, w *bufio.Writer) {
 					held = append(held, sessions)
 				}
 				live = append(live, sessions)
+				keyOf[sessions] = key
 				fmt.Fprintf(w, "lock %s %s%s\n", key, ttl, hold)
 			case r < 56:
 				// bias towards the oldest live callers: they are the holders; sometimes stale ones
@@ -536,11 +556,11 @@ func runC14(in *bufio.Scanner, out *bufio.Writer) {
 				}
 			}
 			s.held = false
-			w.release(w.holds, s.id)
+			w.release(w.holds, s.qid)
 			res := "wait"
 			if granted || s.cancelled {
 				ev, ok := w.wait(func(e c14Event) bool {
-					return e.id == s.id && (e.name == "lock.acq" || e.name == "lock.cancel")
+					return e.id == s.qid && (e.name == "lock.acq" || e.name == "lock.cancel")
 				})
 				switch {
 				case !ok:
@@ -588,12 +608,26 @@ func runC14(in *bufio.Scanner, out *bufio.Writer) {
 			}
 			res := w.safeUnlock(s.key, s.id)
 			if res != "panic" {
-				if ev, ok := w.waitFor("lock.rm", s.id); !ok {
+				if ev, ok := w.waitFor("lock.rm", s.qid); !ok {
 					res = "unexpected-" + ev.name
 				}
 			}
 			res += w.settle(s.key)
 			fmt.Fprintf(out, "unlock %d %s %s\n", s.n, res, w.state(s.key))
+		case "unlockx":
+			// Unlock(K, id of S) where S locked a DIFFERENT key: a foreign id must name nobody on K
+			s := get(f, 1)
+			if s == nil || !s.acquired || len(f) != 3 || f[2] == s.key {
+				fmt.Fprintln(out, "skip")
+				break
+			}
+			res := w.safeUnlock(f[2], s.id)
+			if res == "ok" {
+				// accepted: the removal hook fired on key K's queue for whoever carries the same id there
+				w.wait(func(e c14Event) bool { return e.name == "lock.rm" && e.raw == s.id && e.id != s.qid })
+			}
+			res += w.settle(f[2])
+			fmt.Fprintf(out, "unlockx %d %s %s %s\n", s.n, f[2], res, w.state(f[2]))
 		case "unlockraw":
 			if len(f) != 3 {
 				fmt.Fprintln(out, "bad-op")
@@ -610,17 +644,17 @@ func runC14(in *bufio.Scanner, out *bufio.Writer) {
 			res := "noop"
 			if w.inQueue(s) {
 				res = "removed"
-				if _, ok := w.waitTTL(s.id); !ok {
+				if _, ok := w.waitTTL(s.qid); !ok {
 					res = "unexpected-timeout"
 				} else {
-					w.release(w.ttlWait, s.id)
-					if ev, ok := w.waitFor("lock.rm", s.id); !ok {
+					w.release(w.ttlWait, s.qid)
+					if ev, ok := w.waitFor("lock.rm", s.qid); !ok {
 						res = "unexpected-" + ev.name
 					}
 				}
 				res += w.settle(s.key)
 			} else {
-				w.release(w.ttlWait, s.id)
+				w.release(w.ttlWait, s.qid)
 			}
 			fmt.Fprintf(out, "expire %d %s %s\n", s.n, res, w.state(s.key))
 		case "gwttl", "gwcancel":
@@ -660,16 +694,16 @@ func c14Gateway(f []string, install func(*c14World)) string {
 		if err != nil || resp == nil {
 			return "gwttl " + f[1] + " lock-error"
 		}
-		acq, ok := w.waitFor("lock.acq", resp.LockID)
+		acq, ok := w.waitForRaw("lock.acq", resp.LockID)
 		if !ok {
 			return "gwttl " + f[1] + " no-acq"
 		}
-		fired, ok := w.waitTTL(resp.LockID)
+		fired, ok := w.waitTTL(acq.id)
 		if !ok {
 			return "gwttl " + f[1] + " eff=gt4000"
 		}
-		w.release(w.ttlWait, resp.LockID)
-		w.waitFor("lock.rm", resp.LockID)
+		w.release(w.ttlWait, acq.id)
+		w.waitFor("lock.rm", acq.id)
 		ms := fired.Sub(acq.at).Milliseconds()
 		return fmt.Sprintf("gwttl %s eff=%d", f[1], (ms+125)/250*250)
 	case "gwcancel":
@@ -678,7 +712,7 @@ func c14Gateway(f []string, install func(*c14World)) string {
 		if err != nil {
 			return "gwcancel lock-error"
 		}
-		w.waitFor("lock.acq", first.LockID)
+		w.waitForRaw("lock.acq", first.LockID)
 		ctx, cancel := context.WithCancel(context.Background())
 		type res struct {
 			id  string
@@ -693,7 +727,7 @@ func c14Gateway(f []string, install func(*c14World)) string {
 			}
 			done <- res{id, err}
 		}()
-		enq, ok := w.wait(func(e c14Event) bool { return e.name == "lock.enq" && e.id != first.LockID })
+		enq, ok := w.wait(func(e c14Event) bool { return e.name == "lock.enq" && e.raw != first.LockID })
 		if !ok {
 			return "gwcancel no-enq"
 		}
